@@ -73,7 +73,7 @@ def family(tier, seed):
         longs = structured_long()
     else:
         rng.shuffle(smalls)
-        sel = smalls[:30]
+        sel = smalls[:24]
         slow = (["1234567", "7654321", "1111111"], ["999999.5", "1000000.4", "0.1"])
         longs = [v for v in structured_long() if len(v) <= 16 and v not in slow]
         more = [v for v in structured_long() if len(v) > 16]
